@@ -42,6 +42,23 @@ struct crafter
     }
     bytes any_type()
     {
+        // 128 bit types close to the Bluetooth base UUID: the exact expansion of a 16 bit type in use (equal to that type), the expansion of a
+        // 32 bit UUID with the same lower half, one bit of the base changed (both different from every 16 bit type)
+        if ( rng.chance( 7 ) )
+        {
+            static const std::uint16_t std_types[] = { 0x2800, 0x2803, 0x2902, 0x2901 };
+            std::uint16_t t16 = std_types[ rng.below( 4 ) ];
+            if ( rng.chance( 50 ) ) { const gatt::char_desc& ch = cfg.chars[ rng.below( cfg.n_chars ) ]; if ( ch.uuid_len == 2 ) t16 = static_cast< std::uint16_t >( ch.uuid[ 0 ] | ( ch.uuid[ 1 ] << 8 ) ); }
+            static const std::uint8_t base[ 16 ] = { 0xFB, 0x34, 0x9B, 0x5F, 0x80, 0x00, 0x00, 0x80, 0x00, 0x10, 0x00, 0x00, 0, 0, 0, 0 };
+            bytes l( base, base + 16 ); l[ 12 ] = static_cast< std::uint8_t >( t16 ); l[ 13 ] = static_cast< std::uint8_t >( t16 >> 8 );
+            switch ( rng.below( 3 ) )
+            {
+            case 0: break;
+            case 1: if ( rng.chance( 50 ) ) l[ 14 ] = static_cast< std::uint8_t >( 1 + rng.below( 255 ) ); else l[ 15 ] = static_cast< std::uint8_t >( 1 + rng.below( 255 ) ); break;
+            default: l[ rng.below( 12 ) ] ^= static_cast< std::uint8_t >( 1u << rng.below( 8 ) ); break;
+            }
+            return l;
+        }
         const unsigned x = static_cast< unsigned >( rng.below( 100 ) );
         bytes t;
         if ( x < 45 ) { static const std::uint16_t std_types[] = { 0x2800, 0x2801, 0x2802, 0x2803, 0x2803, 0x2902, 0x2901, 0x2900 }; put16( t, std_types[ rng.below( 8 ) ] ); return t; }
@@ -224,6 +241,28 @@ struct gatt_harness : sim::Harness
         // most runs start on an encrypted link when the focus needs to get past the security checks
         if ( rng.chance( 40 ) )
             for ( unsigned c = 0; c != clients; ++c ) p.ops.push_back( sim::Op( gatt::op_security, { static_cast< std::int64_t >( c ), rng.range( 1, 3 ) } ) );
+        // the family "a request the queue can never hold": one client, with a large MTU, prepares more than the whole shared queue takes
+        // (refused, nothing is queued), then another client prepares a few bytes - more of the same and the rest of the plan follow
+        if ( property == "C07" && clients >= 2 && cfg.queue > 0 && cfg.max_mtu - 5 + 4 > cfg.queue && rng.chance( 25 ) )
+        {
+            std::vector< std::uint16_t > writable;
+            for ( std::size_t i = 0; i != cfg.n_chars; ++i ) if ( cfg.chars[ i ].writable ) writable.push_back( cfg.chars[ i ].value_handle );
+            if ( !writable.empty() )
+            {
+                const std::int64_t a = static_cast< std::int64_t >( rng.below( clients ) ), b = ( a + 1 ) % clients;
+                for ( std::int64_t c : { a, b } ) p.ops.push_back( sim::Op( gatt::op_security, { c, 2 } ) );
+                bytes mtu{ 0x02 }; put16( mtu, 247 );
+                p.ops.push_back( sim::Op( gatt::op_request, { a }, mtu ) );
+                const std::uint16_t h = writable[ rng.below( writable.size() ) ];
+                bytes big{ 0x16 }; put16( big, h ); put16( big, 0 );
+                const std::size_t len = static_cast< std::size_t >( cfg.max_mtu - 5 - ( rng.chance( 70 ) ? 0 : static_cast< int >( rng.below( 4 ) ) ) );
+                for ( std::size_t i = 0; i != len; ++i ) big.push_back( rng.byte() );
+                p.ops.push_back( sim::Op( gatt::op_request, { a }, big ) );
+                bytes small{ 0x16 }; put16( small, writable[ rng.below( writable.size() ) ] ); put16( small, 0 ); small.push_back( rng.byte() );
+                p.ops.push_back( sim::Op( gatt::op_request, { b }, small ) );
+                if ( rng.chance( 50 ) ) p.ops.push_back( sim::Op( gatt::op_request, { b }, bytes{ 0x18, 0x01 } ) );
+            }
+        }
         for ( unsigned i = 0; i != n_ops; ++i )
         {
             unsigned r = static_cast< unsigned >( rng.below( total ) ), k = 0;
